@@ -153,6 +153,8 @@ def step : List String → String
     | some cs, some pk, some sg =>
       resLine (fun h => hx h ++ " " ++ hexL (CertBlock.vxFuseWords h))
         (CertBlock.vxCertHash execOps { constraints := cs, pubKey := pk, signature := sg }) | _, _, _ => "bad-op"
+  | ["lite_parse", h] => match parseHex h with
+    | some b => resLine (fun i => s!"{i.constraints} {hx i.pubKey} {hx i.signature}") (CertBlock.liteParse (fun _ => true) b) | none => "bad-op"
   -- HAB SrkItemEcc (generated field description)
   | ["habecc_export", ks, x, y, fl] => match parseNat ks, parseNat x, parseNat y, parseNat fl with
     | some ks, some x, some y, some fl => okHex (Rkht.habEccExport { keySize := ks, x := x, y := y, flag := fl }) | _, _, _, _ => "bad-op"
